@@ -22,7 +22,10 @@ Where Metal differs from HLSL, the reading is spelled out here:
   width of that type (Metal Shading Language Specification, "the shift count is the log2(N) least significant bits").
 * `int` / `uint` arithmetic wraps (two's complement, as the IR's); integer division and remainder are `Prim.idiv/imod`
   (division by zero, `INT_MIN / -1`: whatever the device does, the same on both sides); float↔int conversions and float
-  arithmetic are `Prim`; `metal::fmod` is the float remainder `Prim.fbin .mod` (the IR's `%` on floats).
+  arithmetic are `Prim`; `metal::fmod` is the float remainder `Prim.fbin .mod` (the IR's `%` on floats).  The operators
+  `%` and `%=` themselves are NOT defined on `float` (Metal has no remainder operator for floating-point operands): no
+  static type, no value.  (Until fix batch 3 this reading gave `x %= y` on floats the fmod meaning, because the exporter
+  emitted it — known finding metal-remainder-operator-on-floats, repaired by 92d66eb + 35faaaa.)
 * `&&`, `||`, `?:` short-circuit, `,` and function arguments are evaluated left to right, an assignment yields the stored
   value, `x op= e` computes in the common type and converts back, conditions are contextually converted to `bool`.
 * **calls** pass `T name` parameters by value (converted to `T`, stored in the callee's frame slot) and `thread T& name`
@@ -142,7 +145,7 @@ def longBinV (m : MBin) : Val → Val → Option Val
 
 /-- a binary operator other than a shift on two operands already converted to their common type `T` -/
 def binopM (P : Prim) (T : Ty) (m : MBin) (a b : Val) : Option Val :=
-  if T = .lit then longBinV m a b else binop P m a b
+  if T = .lit then longBinV m a b else if m = .mod ∧ T = .float then none else binop P m a b
 
 def shiftCount (width : Nat) : Val → Option Nat
   | .i x => some (x.toNat % width)
@@ -236,11 +239,11 @@ def typeOf (sig : MSig) (env : Ast.Env) : Expr → Option Ty
       else
         match common ta tb with
         | none => none
-        | some t => if m.isCmp then some .bool else some t
+        | some t => if m = .mod ∧ t = .float then none else if m.isCmp then some .bool else some t
     | .land, some _, some _ => some .bool
     | .lor, some _, some _ => some .bool
     | .assign, some ta, some _ => some ta
-    | .compound _, some ta, some _ => some ta
+    | .compound m, some ta, some tb => if m = .mod ∧ common ta tb = some .float then none else some ta
     | .comma, some _, some tb => some tb
     | _, _, _ => none
   | .tern c t f =>
